@@ -1,6 +1,7 @@
 package main
 
 import (
+	"math"
 	"context"
 	"errors"
 	"fmt"
@@ -44,6 +45,7 @@ func (p *PArgs) Reset() { *p = PArgs{} }
 type PReply struct {
 	ID  int
 	Sum int
+	F   float64 // NaN makes the JSON codec fail to encode the reply
 }
 
 func (p *PReply) Reset() { *p = PReply{} }
@@ -179,6 +181,9 @@ func (s *rigSvc) Pooled(ctx context.Context, a *PArgs, rp *PReply) error {
 	rp.Sum = a.A + a.B
 	if a.Mode == "err" {
 		return errors.New("pooled failed")
+	}
+	if a.Mode == "nan" {
+		rp.F = math.NaN() // the handler succeeds, the reply cannot be encoded
 	}
 	return nil
 }
